@@ -23,8 +23,12 @@ def run(ctx):
     if ctx.pid in EXTRA:
         results += EXTRA[ctx.pid](ctx)
     bad = generic.proof_cov(ctx, extra_trusted=["sync.Mutex / channel / select semantics as documented", "real-time jitter: fire times are placed >= 10 min away from the classification boundaries"])
-    generic.judge(ctx, results, bad, "sched",
-                  widen=lambda: (generic.engine_run(ctx, "sched", ["--seed", str(ctx.seed * 7919 + k), "--n", str(n * 2)], "search%d" % k, timeout=1500) for k in range(1, 4)))
+    def widen():
+        for k in range(1, 4):
+            yield generic.engine_run(ctx, "sched", ["--seed", str(ctx.seed * 7919 + k), "--n", str(n * 2)], "search%d" % k, timeout=1500)
+            if ctx.pid == "C09":
+                yield generic.engine_run(ctx, "lin", ["--seed", str(ctx.seed * 7919 + k), "--n", "3000"], "searchlin%d" % k, timeout=1500)
+    generic.judge(ctx, results, bad, "sched", widen=widen)
     generic.fill_coverage(ctx, results, RULE)
     return common.finish(ctx)
 
